@@ -29,19 +29,16 @@ theorem bigNormalizeCoef128_same {b : Nat} {H : Int} (hr : HeadRoom 128 b 0 H) (
 theorem normalizeInterCoef_value' {bits b rs : Nat} {H : Int} {a : List Int} (c : CrossCtx bits b b rs 0 H a) (off : Int) :
     (normalizeInterCoef bits b rs off a).length = rs ∧ (∀ d ∈ normalizeInterCoef bits b rs off a, |d| ≤ 2 ^ b - 1) ∧
     TorusNear (valI b (normalizeInterCoef bits b rs off a)) (b * rs) (valI b a * 2 ^ off.toNat) (b * a.length + (-off).toNat) ∧
-    (((b * a.length : Nat) : Int) ≤ ((b * rs : Nat) : Int) + (splitOffset b off).2 * b →
+    (((b * a.length : Nat) : Int) - off ≤ ((b * rs : Nat) : Int) →
       TorusEq (valI b (normalizeInterCoef bits b rs off a)) (b * rs) (valI b a * 2 ^ off.toNat) (b * a.length + (-off).toNat)) := by
   have hv := normalizeInterCoef_value c.headRoomH rs off a c.ha
   have hb1 : 1 ≤ b := c.hrb1
-  obtain ⟨hso, _⟩ := splitOffset_spec hb1 off
-  refine ⟨hv.1, ?_, hv.2.2.1, fun hx => hv.2.2.2 ?_⟩
+  refine ⟨hv.1, ?_, hv.2.2.1, hv.2.2.2⟩
   · intro d hd
     have := (hv.2.1 d hd).abs_le
     have h2 := half_le_full hb1
     have h3 : (1 : Int) ≤ 2 ^ (b - 1) := by
       have := two_pow_le (Nat.zero_le (b - 1)); simpa using this
-    linarith
-  · have : (0 : Int) ≤ ((splitOffset b off).1 : Int) := Int.natCast_nonneg _
     linarith
 
 /-- **`vec_znx_normalize` / FFT64 `vec_znx_big_normalize`, any radix pair, every offset** -/
@@ -49,7 +46,7 @@ theorem normalizeCoef_value {ab rb rs : Nat} {H : Int} {a : List Int}
     (c : CrossCtx 64 ab rb rs 0 H a) (off : Int) {out : List Int} (h : normalizeCoef rb rs off ab a = some out) :
     out.length = rs ∧ (∀ d ∈ out, |d| ≤ 2 ^ rb - 1) ∧
     TorusNear (valI rb out) (rb * rs) (valI ab a * 2 ^ off.toNat) (ab * a.length + (-off).toNat) ∧
-    (((ab * a.length : Nat) : Int) ≤ ((rb * rs : Nat) : Int) + (splitOffset ab off).2 * ab →
+    (((ab * a.length : Nat) : Int) - off ≤ ((rb * rs : Nat) : Int) →
       TorusEq (valI rb out) (rb * rs) (valI ab a * 2 ^ off.toNat) (ab * a.length + (-off).toNat)) := by
   unfold normalizeCoef at h
   by_cases hr : rb = ab
@@ -65,7 +62,7 @@ theorem bigNormalizeCoef128_value {ab rb rs : Nat} {H : Int} {a : List Int}
     (c : CrossCtx 128 ab rb rs 0 H a) (off : Int) {out : List Int} (h : bigNormalizeCoef128 rb rs off ab a = some out) :
     out.length = rs ∧ (∀ d ∈ out, |d| ≤ 2 ^ rb - 1) ∧
     TorusNear (valI rb out) (rb * rs) (valI ab a * 2 ^ off.toNat) (ab * a.length + (-off).toNat) ∧
-    (((ab * a.length : Nat) : Int) ≤ ((rb * rs : Nat) : Int) + (splitOffset ab off).2 * ab →
+    (((ab * a.length : Nat) : Int) - off ≤ ((rb * rs : Nat) : Int) →
       TorusEq (valI rb out) (rb * rs) (valI ab a * 2 ^ off.toNat) (ab * a.length + (-off).toNat)) := by
   by_cases hr : rb = ab
   · subst hr
